@@ -108,7 +108,7 @@ def gen_params(draw, max_hosts=12, max_services=5, small=True):
         p["num_privescs"] = draw(st.integers(1, P * (O + 1)))
     ne = p.get("num_exploits", S)
     npe = p.get("num_privescs", P)
-    p["restrictiveness"] = draw(st.integers(1, 6))
+    p["restrictiveness"] = draw(st.sampled_from([1, 1, 2, 2, 3, 4, 5, 6]))
     uniform = draw(st.booleans()) and S <= 8
     p["uniform"] = uniform
     if not uniform:
